@@ -48,7 +48,7 @@ class Run(PropRunStream):
     quick_seconds = 60
     p_fault = 0.7
     p_both = 0.25               # a backend failure and a keyboard interrupt in the same run, in either order
-    p_base_fault = 0.12         # ... of which: GeneratorExit / SystemExit / KeyboardInterrupt raised inside the handler (D42)
+    p_base_fault = 0.12         # ... of which: GeneratorExit / SystemExit / KeyboardInterrupt raised inside the handler (D42, repaired)
     corpus = [witness("D17 "), witness("D10 "), W2.EMPTY_BACKEND_ERROR, W2.FAULT_THEN_INTERRUPT, W2.INTERRUPT_THEN_FAULT] + W2.PROTOCOL_FAULTS
 
 
